@@ -1,0 +1,165 @@
+// Copyright 2018 vogo.
+// Author: wongoo
+//
+// Licensed under the Apache License, Version 2.0 (the "License"); you may not
+// use this file except in compliance with the License. You may obtain a copy of
+// the License at
+//
+// http://www.apache.org/licenses/LICENSE-2.0
+//
+// Unless required by applicable law or agreed to in writing, software
+// distributed under the License is distributed on an "AS IS" BASIS, WITHOUT
+// WARRANTIES OR CONDITIONS OF ANY KIND, either express or implied. See the
+// License for the specific language governing permissions and limitations under
+// the License.
+
+package hessian
+
+// skipValue consumes one value of any type without building it.  The value of a wire field that has
+// no Go counterpart may belong to a class, list type or map type this decoder has never heard of
+// (a newer peer added a field), so it cannot be decoded - but it can be stepped over.  Lists, maps
+// and objects inside it still take their reference ordinals, and class definitions and type names
+// are still recorded, exactly as for a value that is kept.
+func (d *Decoder) skipValue() error {
+	tag, err := d.readTag()
+	if err != nil {
+		return newCodecError("skipValue", "reading tag", err)
+	}
+	return d.skipTagged(tag)
+}
+
+// skipTagged skips the value whose tag has been read
+func (d *Decoder) skipTagged(tag byte) error {
+	switch {
+	case tag == _nilTag, tag == _boolTrueTag, tag == _boolFalseTag:
+		return nil
+	case intTag(tag):
+		_, err := d.readInt(int32(tag))
+		return err
+	case longTag(tag):
+		_, err := d.readLong(int32(tag))
+		return err
+	case doubleTag(tag):
+		_, err := d.readDouble(int32(tag))
+		return err
+	case stringTag(tag):
+		_, err := d.readString(int32(tag))
+		return err
+	case dateTag(tag):
+		_, err := d.readDate(int32(tag))
+		return err
+	case binaryTag(tag):
+		_, err := d.readBinary(int32(tag))
+		return err
+	case refTag(tag):
+		_, err := d.readInt(_tagRead)
+		return err
+	case tag == _objectDefTag:
+		// value ::= class-def value
+		if err := d.readObjectDef(); err != nil {
+			return err
+		}
+		return d.skipValue()
+	case objectLenTag(tag), tag == _objectTag:
+		idx := int(tag - _objectLenTagMin)
+		if tag == _objectTag {
+			i, err := d.readInt(_tagRead)
+			if err != nil {
+				return newCodecError("skipValue", err)
+			}
+			idx = int(i)
+		}
+		if idx < 0 || idx >= len(d.clsDefList) {
+			return newCodecError("skipValue", "cls def ref index %d over max %d", idx, len(d.clsDefList))
+		}
+		// the object keeps its reference ordinal
+		d.addDecoderRef(_zeroValue)
+		count := len(d.clsDefList[idx].FieldName)
+		for i := 0; i < count; i++ {
+			if err := d.skipValue(); err != nil {
+				return err
+			}
+		}
+		return nil
+	case typedListTag(tag), untypedListTag(tag):
+		return d.skipList(tag)
+	case tag == _mapTypedTag, tag == _mapUntypedTag:
+		if tag == _mapTypedTag {
+			if _, err := d.readType(); err != nil {
+				return newCodecError("skipValue", err)
+			}
+		}
+		// the map keeps its reference ordinal
+		d.addDecoderRef(_zeroValue)
+		for {
+			key, err := d.readTag()
+			if err != nil {
+				return newCodecError("skipValue", "reading tag", err)
+			}
+			if key == _endFlag {
+				return nil
+			}
+			if err := d.skipTagged(key); err != nil {
+				return err
+			}
+			if err := d.skipValue(); err != nil {
+				return err
+			}
+		}
+	default:
+		return newCodecError("skipValue", "unknown tag: 0x%x", tag)
+	}
+}
+
+// skipList skips the list whose tag has been read
+func (d *Decoder) skipList(tag byte) error {
+	if typedListTag(tag) {
+		if _, err := d.readType(); err != nil {
+			return newCodecError("skipValue", err)
+		}
+	}
+
+	variable := tag == _listVariableTypedTag || tag == _listVariableUntypedTag
+	length := 0
+	switch {
+	case variable:
+	case listFixedTypedLenTag(tag):
+		length = int(tag - _listFixedTypedLenTagMin)
+	case listFixedUntypedLenTag(tag):
+		length = int(tag - _listFixedUntypedLenTagMin)
+	default:
+		ii, err := d.readInt(_tagRead)
+		if err != nil {
+			return newCodecError("skipValue", err)
+		}
+		length = int(ii)
+		if length < 0 {
+			// as in the list readers: no list, no ordinal
+			return nil
+		}
+	}
+
+	// the list keeps its reference ordinal
+	d.addDecoderRef(_zeroValue)
+
+	if variable {
+		for {
+			item, err := d.readTag()
+			if err != nil {
+				return newCodecError("skipValue", "reading tag", err)
+			}
+			if item == _endFlag {
+				return nil
+			}
+			if err := d.skipTagged(item); err != nil {
+				return err
+			}
+		}
+	}
+	for j := 0; j < length; j++ {
+		if err := d.skipValue(); err != nil {
+			return err
+		}
+	}
+	return nil
+}
